@@ -52,8 +52,9 @@ TOKEN_RE = re.compile(r'''
 ''', re.X | re.S)
 
 FLIP = {
-    'number': ['"7"', '7.5', 'x7', 'true', '-', ';', "'7'"],
-    'fraction': ['1', '"1.5"', 'f'],
+    'number': ['"7"', '7.5', 'x7', 'true', '-', ';', "'7'", '7.5f', '7e2l'],
+    'fraction': ['1', '"1.5"', 'f', '1.5f', '2.5L', '1e3F'],
+
     'string': ['1', 'str', "'str'", '"', '""'],
     'ticked': ['"p"', 'p', "'", "''"],
     'ident': ['1', '"id"', 'self', 'selected', 'param', 'if', 'end', 'not', 'many', '_', 'x::y'],
